@@ -21,10 +21,17 @@ for e in plan:
         "origin": "independent sub-agent given only the property text and a scratch worktree (no access to /verif)",
         "confirmed_by_me": "patch applies to /repo HEAD; compiles; the sub-agent ran the full suite (92 passed) with the patch and the demo (fails with / passes without); I re-ran the check below with the patch applied (git -C /repo apply; ./check ...; git -C /repo checkout -- .)",
         "expected": e["expect"],
-        "check_cmd": ("./check %s --only '%s'" % (e["property"], e["only"])) if e.get("only") else None,
+        "check_cmd": ("./check %s --only '%s'" % (e["property"], e["only"])) if e.get("only") else (("./check %s --e3-only" % e["property"]) if e.get("e3") else None),
         "result": r.get("result", "not run (no registered check reaches this code)" if e["expect"] == "miss" else "pending"),
         "detected_by": r.get("detected_by"),
         "why_missed": e.get("why_missed"),
     }
     json.dump(meta, open(os.path.join(d, "meta.json"), "w"), indent=1)
+rows = ["| seed | property | needs to manifest | expected | recorded run | detected by |", "|---|---|---|---|---|---|"]
+for e in plan:
+    r = res.get(e["id"], {})
+    det = ", ".join(sorted({d["harness"] for d in (r.get("detected_by") or [])})) or "-"
+    run = r.get("result", "not run (no registered check reaches this code)" if e["expect"] == "miss" else "not run in the recorded campaign (thorough tier only)")
+    rows.append("| %s | %s | %s | %s | %s | %s |" % (e["id"], e["property"], e["needs"].replace("|", "/")[:160], e["expect"], run, det))
+open(os.path.join(V, "seeded", "RESULTS.md"), "w").write("# Seeded changes: recorded runs\n\nEach patch was applied to /repo with `git apply`, the check named in its meta.json was run, the patch was undone.\n\n" + "\n".join(rows) + "\n")
 print("wrote meta for", len(plan))
